@@ -137,6 +137,8 @@ def _field_loads(body, op, seen=None, depth=0):
         elif kind == "assign" and d["rv"]["k"] == "agg" and d["rv"].get("agg") == "adt" and d["rv"].get("adt", "").split("::")[-1] in ("Option", "Result"):
             for o2 in d["rv"]["ops"]:
                 out |= _field_loads(body, o2, seen, depth + 1)
+        elif kind == "call" and not d.local and d.matches(r"Try>::branch$|::clone$|Option::<.*>::unwrap$|Result::<.*>::unwrap$") and len(d.args) == 1:
+            out |= _field_loads(body, d.args[0], seen, depth + 1)   # `x?` / clone hand the value on
     return out
 
 
